@@ -252,3 +252,43 @@ def coordinate_store_rule(repo: Repo, prop: str, rule_id: str, floor: int = 1) -
                         key=f"store:{t.attr}#{k}",
                     )
     return r
+
+
+# functions that change an object they are handed, confirmed by reading (one line of reason each)
+MAY_MUTATE_ARGUMENT = {
+    ("construct.operations.operation.Operation._project_update", "edge"): "the edge is the operation's own edge data; adding a label to it is the purpose",
+    ("grading.grading.Grading.add_chop", "chop"): "chop.calculate() stores the resolved values in the chop (its results cache)",
+    ("items.wires.wire.Wire.add_chop", "chop"): "same as Grading.add_chop",
+    ("lists.block_list.BlockList.add", "block"): "registers neighbours on the block being added",
+    ("lists.block_list.BlockList.update_neighbours", "new_block"): "registers neighbours on the block being added",
+    ("lists.vertex_list.VertexList.add", "slave_patches"): "sorts the list Mesh._add_vertices builds freshly for this call (checked by C05.SLAVE-ONLY)",
+    ("lists.vertex_list.VertexList.find_duplicated", "slave_patches"): "same list as VertexList.add",
+    ("modify.reorient.viewpoint.ViewpointReorienter.reorient", "operation"): "re-orienting the given operation in place is the purpose",
+}
+
+
+def argument_mutation_rule(repo: Repo, prop: str, rule_id: str, floor: int = 5) -> RuleRun:
+    """Who may change what it is handed: the interprocedural may-mutate analysis lists every function that modifies one of
+    its parameters in place (list.sort/append, +=, item stores, through callees). Eight are confirmed by reading; any other one
+    changes the caller's object behind its back - e.g. a label list sorted in place and kept, so that two edges projected with
+    the same list share their labels from then on."""
+    from .effects import Effects
+
+    eff = Effects(repo)
+    r = RuleRun(prop, rule_id, floor=floor, what="no function modifies an object it was handed, except the eight confirmed ones (table with reasons)")
+    seen = set()
+    for fn in sorted(repo.all_functions(), key=lambda f: f.qualname):
+        for p in sorted(eff.mutated_params(fn)):
+            seen.add((fn.qualname, p))
+            if (fn.qualname, p) in MAY_MUTATE_ARGUMENT:
+                r.ok(fn, f"modifies '{p}': {MAY_MUTATE_ARGUMENT[(fn.qualname, p)]}", key=f"mutates:{p}")
+                continue
+            w = eff.witness.get((fn.qualname, p))
+            r.bad(
+                fn,
+                f"{fn.qualname} modifies its argument '{p}' in place ('{ast.unparse(w)[:60] if w is not None else '?'}'): the caller's object changes, and if it is also kept (returned / stored) "
+                "every other user of that object changes with it",
+                w if w is not None else fn.node,
+                key=f"mutates:{p}",
+            )
+    return r
